@@ -381,7 +381,7 @@ type c12Step struct {
 	accepted bool
 	after    beacon.LightClientStore
 	bad      [][3]string // (clause, site, detail)
-	panicMsg string // a panic, or an error from Apply*Update after Verify*Update succeeded
+	panicMsg string      // a panic, or an error from Apply*Update after Verify*Update succeeded
 }
 
 // c12DoStep: verify u against a copy of the store and, if accepted, apply it. The store is
